@@ -178,7 +178,7 @@ class Concretiser:
             prefer = '"' if (v.get("id", 0) + self.salt) % 2 else "'"
             return self.quote(c, prefer)
         if sh == "enum":
-            if v["w"].lower() in BLOCK_WORDS or not BARE_RE.match(v["w"]):
+            if v["w"].lower() == "end" or not BARE_RE.match(v["w"]):     # MapServer spelling: bare word
                 return '"' + c + '"'
             return c
         if sh in ("kvkey", "cfgkey"):
